@@ -1025,6 +1025,25 @@ func c07OracleEscapes(r *Rng, tier string, rep *Report) {
 	for _, e := range c07BadURLCases() {
 		c07CheckExpect(rep, e, "bad-url")
 	}
+	// CSS Syntax section 3.3 turns CR LF into one LF before tokenizing, so the single whitespace that ends a hex
+	// escape is the whole "\r\n": it belongs to the name and does not start a whitespace token.
+	for k := 1; k <= 6; k++ {
+		name := append(append([]byte{'\\'}, c07GenHexN(r, nil, k)...), "\r\n"...)
+		text := append(append([]byte{}, name...), 'x')
+		var toks []c07LexedTok
+		if p := catch(func() { toks, _, _, _ = c07LexAll(text) }); p != nil {
+			rep.Violate("panic:"+hx(text), fmt.Sprintf("css lexer panics on %q: %v", text, p), map[string]interface{}{"input": hx(text)})
+			continue
+		}
+		if !(len(toks) == 1 && toks[0].tt == css.IdentToken && bytes.Equal(toks[0].data, text)) {
+			var got []string
+			for _, t := range toks {
+				got = append(got, fmt.Sprintf("%v(%q)", t.tt, t.data))
+			}
+			rep.Violate("escape-crlf", fmt.Sprintf("%q: one identifier by CSS Syntax (CR LF is one whitespace after a hex escape), lexed as %v", text, got), map[string]interface{}{"input": hx(text)})
+		}
+		rep.Eval(hx(text), true, "escape-crlf")
+	}
 }
 
 func init() {
